@@ -491,6 +491,52 @@ pub fn run(args: &Args) -> ! {
             l2.disc.extend(a.disc);
         },
     );
+    // ---- look-ahead window family: in a multi-line search the printers
+    // re-discover the matches on the reported lines plus a bounded look-ahead
+    // window; a pattern whose tail is anchored at the end of the haystack must
+    // not see the end of that window as the end of the input ---------------
+    {
+        let pats = ["(a)(?:\\n-{0,200}\\z)?", "a(?:\\n(?s:.){0,150}\\z)?", "(a)\\n(?:-{0,140}\\z)?", "(a)(?:\\n-*\\z)?", "(a)(?:\\n-{0,200}\\z)?|b"];
+        let tails = [100usize, 126, 127, 128, 129, 130, 200, 300];
+        for pat in pats {
+            let pat = pat.replace("\\\\", "\\");
+            let mut f = PFlags::default();
+            f.multiline = true;
+            let Ok(m) = build_matcher(&[pat.as_str()], &f) else { continue };
+            let re = regex::bytes::RegexBuilder::new(&pat).multi_line(true).build().unwrap();
+            for &n in tails.iter() {
+                for after in ["\nb\n", "\n", ""] {
+                    let mut input = b"a\n".to_vec();
+                    input.extend(std::iter::repeat(b'-').take(n));
+                    input.extend(after.replace("\\n", "\n").bytes());
+                    for tmpl in ["[$0]", "$1", ""] {
+                        let so = StdOpts { line_number: false, replacement: Some(tmpl.as_bytes().to_vec()), ..Default::default() };
+                        let out = run_mode(&input, &m, &f, &Mode::Standard(so), false);
+                        l2.printer_runs += 1;
+                        let want = reference_output(V::MultiLine, &re, &f, &input, false, &|c, d| c.expand(tmpl.as_bytes(), d));
+                        if out.error.is_some() || out.out != want {
+                            verdict.discrepancy(
+                                None,
+                                &format!("printer | look-ahead window | {} | {} | a\\n + {} dashes + {}", pat, esc(tmpl.as_bytes()), n, esc(after.as_bytes())),
+                                json!({"kind":"printer-replacement","variant":"look-ahead window","pattern":pat,"template":tmpl,"input":esc(&input),
+                                       "printed":esc(&out.out),"expected":esc(&want),"error":out.error}),
+                            );
+                        }
+                    }
+                    // the JSON printer re-discovers matches the same way
+                    let out = run_mode(&input, &m, &f, &Mode::Json, false);
+                    l2.printer_runs += 1;
+                    if let Some(e) = out.error {
+                        verdict.discrepancy(
+                            None,
+                            &format!("printer | look-ahead window (JSON) | {} | a\\n + {} dashes + {}", pat, n, esc(after.as_bytes())),
+                            json!({"kind":"json-printer-error","pattern":pat,"input":esc(&input),"error":e}),
+                        );
+                    }
+                }
+            }
+        }
+    }
     for (f, k, v) in total.disc.iter().chain(l2.disc.iter()) {
         verdict.discrepancy(*f, k, v.clone());
     }
@@ -506,7 +552,7 @@ pub fn run(args: &Args) -> ! {
     ev.set(
         "rule",
         format!(
-            "layer 1: every replacement template that is a token string of length <= {} over {:?} ({} templates) x {} patterns with optional / nested / named / empty-matching groups x 6 haystacks: Captures::interpolate == regex::bytes::Captures::expand (regex 1.10.6). layer 2: the standard printer with -r for {} templates x the same patterns x every input over {{a,b,-,\\n}} up to length {} x {{plain, -o, --crlf, --crlf on inputs mixing \\r\\n and bare \\n, -U --crlf (patterns that cannot match \\n), --column, -v -C1, -U (4 line-crossing patterns, no line numbers)}}: printed output == per-line regex::bytes::Regex::replace_all with the terminator held aside (per match expansion under -o; lines without a match unaltered). distinct_nontrivial = interpolations whose expansion differs from the template text.",
+            "layer 1: every replacement template that is a token string of length <= {} over {:?} ({} templates) x {} patterns with optional / nested / named / empty-matching groups x 6 haystacks: Captures::interpolate == regex::bytes::Captures::expand (regex 1.10.6). layer 2: the standard printer with -r for {} templates x the same patterns x every input over {{a,b,-,\\n}} up to length {} x {{plain, -o, --crlf, --crlf on inputs mixing \\r\\n and bare \\n, -U --crlf (patterns that cannot match \\n), --column, -v -C1, -U (4 line-crossing patterns, no line numbers)}}: printed output == per-line regex::bytes::Regex::replace_all with the terminator held aside (per match expansion under -o; lines without a match unaltered). Look-ahead window family: five -U patterns whose optional tail is anchored with \\z x inputs 'a\\n' + 100..300 dashes (around the printers' 128-byte look-ahead window) x three templates, and the JSON printer on the same searches (must not fail). distinct_nontrivial = interpolations whose expansion differs from the template text.",
             tier.pick(3, 4), TEMPLATE_TOKENS, tmpls.len(), PATTERNS.len(), ptmpls.len(), maxlen
         ),
     );
